@@ -616,11 +616,15 @@ class Interp(object):
         raise OutOfSubset("attribute %s of %r" % (attr, base))
 
     def find_class(self, inst):
+        if inst.module is None:
+            raise OutOfSubset("attribute lookup on the plain record %s beyond its fields %s" % (inst.cls, sorted(inst.fields)))
         m = self.repo.module(inst.module)
         return m, m.classes[inst.cls]
 
     def class_attr(self, inst, attr):
         """Attribute not set on the instance: method, property or class-level default."""
+        if inst.module is None:
+            raise OutOfSubset("attribute %s of the plain record %s (fields %s)" % (attr, inst.cls, sorted(inst.fields)))
         m, cls = self.find_class(inst)
         while True:
             for node in cls.body:
